@@ -124,7 +124,7 @@ func scratchRoot() string {
 	if s := os.Getenv("VERIF_SCRATCH"); s != "" {
 		return s
 	}
-	return filepath.Join("/var/tmp", fmt.Sprintf("verif.%d", os.Getpid()))
+	return filepath.Join("/var/tmp", fmt.Sprintf("verif.%07d", os.Getpid()))
 }
 
 func main() {
@@ -262,7 +262,16 @@ func parseCheckArgs(args []string) (id, tier, patch string, keep bool) {
 }
 
 func runShard(bin string, cfg *CheckCfg, tier string, seed int64, shard, shards int, scratch, replay string, deadline time.Time, race bool) (*ShardResult, string, error) {
-	out := filepath.Join(scratch, fmt.Sprintf("out-%s-%d-%d.json", cfg.ID, shard, time.Now().UnixNano()))
+	return runShardLane(bin, cfg, tier, seed, shard, shards, scratch, 0, replay, deadline, race)
+}
+
+// runShardLane: lanes are parallel runs inside one scratch directory (the confirmation replays).  Every
+// lane's working directory has the same depth and the same name lengths as the main run's, because some
+// code under test is sensitive to where its files lie (an absolute source path becomes one tree per path
+// component): a recorded schedule must replay in any lane and in a later `verif replay`.
+func runShardLane(bin string, cfg *CheckCfg, tier string, seed int64, shard, shards int, scratch string, lane int, replay string, deadline time.Time, race bool) (*ShardResult, string, error) {
+	_ = os.MkdirAll(filepath.Join(scratch, fmt.Sprintf("tm%02d", lane)), 0o700)
+	out := filepath.Join(scratch, fmt.Sprintf("out-%s-%d-%d-%d.json", cfg.ID, shard, lane, time.Now().UnixNano()))
 	test := cfg.Test
 	if race {
 		test = "TestVerifRace_" + cfg.ID
@@ -286,10 +295,10 @@ func runShard(bin string, cfg *CheckCfg, tier string, seed int64, shard, shards 
 		"VERIF_SEED="+strconv.FormatInt(seed, 10),
 		fmt.Sprintf("VERIF_SHARD=%d/%d", shard, shards),
 		"VERIF_OUT="+out,
-		"VERIF_SCRATCH="+filepath.Join(scratch, "work"),
+		"VERIF_SCRATCH="+filepath.Join(scratch, fmt.Sprintf("wk%02d", lane)),
 		"VERIF_DEADLINE="+strconv.FormatInt(deadline.Unix(), 10),
-		"TMPDIR="+filepath.Join(scratch, "tmp"),
-		"RESTIC_CACHE_DIR="+filepath.Join(scratch, "cache"),
+		"TMPDIR="+filepath.Join(scratch, fmt.Sprintf("tm%02d", lane)),
+		"RESTIC_CACHE_DIR="+filepath.Join(scratch, fmt.Sprintf("ca%02d", lane)),
 	)
 	if replay != "" {
 		env = append(env, "VERIF_REPLAY="+replay)
@@ -570,7 +579,10 @@ func doCheck(cfg *CheckCfg, tier, patch string, seed int64, scratch string, star
 			cw.Add(1)
 			go func(k int) {
 				defer cw.Done()
-				res, _, _ := runShard(bin, cfg, tier, seed, 0, 1, filepath.Join(scratch, fmt.Sprintf("confirm%d", k)), rp, time.Now().Add(120*time.Second), false)
+				res, clog, cerr := runShardLane(bin, cfg, tier, seed, 0, 1, scratch, 1+k, rp, time.Now().Add(120*time.Second), false)
+				if os.Getenv("VERIF_SHOWLOG") != "" {
+					fmt.Fprintf(os.Stderr, "confirm %d of %s: res=%v err=%v\n%s\n", k, v.Key, res != nil, cerr, tail(clog, 3000))
+				}
 				hit := false
 				if res != nil {
 					for _, rv := range res.Violations {
@@ -585,7 +597,6 @@ func doCheck(cfg *CheckCfg, tier, patch string, seed int64, scratch string, star
 					cmu.Unlock()
 				}
 			}(k)
-			_ = os.MkdirAll(filepath.Join(scratch, fmt.Sprintf("confirm%d", k), "tmp"), 0o700)
 		}
 		cw.Wait()
 		if !okAll {
@@ -594,7 +605,7 @@ func doCheck(cfg *CheckCfg, tier, patch string, seed int64, scratch string, star
 			// real code, so the violation stands if the same schedule fails again in further replays.
 			hits := 0
 			for k := 0; k < 15 && hits < 2; k++ {
-				res, _, _ := runShard(bin, cfg, tier, seed, 0, 1, filepath.Join(scratch, "confirm0"), rp, time.Now().Add(120*time.Second), false)
+				res, _, _ := runShardLane(bin, cfg, tier, seed, 0, 1, scratch, 1, rp, time.Now().Add(120*time.Second), false)
 				if res != nil {
 					for _, rv := range res.Violations {
 						if rv.Key == v.Key {
@@ -753,7 +764,13 @@ func cmdReplay(args []string) int {
 	scratch := scratchRoot()
 	_ = os.MkdirAll(filepath.Join(scratch, "tmp"), 0o700)
 	defer os.RemoveAll(scratch)
-	bin, err := buildTestBinary(cfg, scratch, "", false)
+	patch := ""
+	for i := 2; i+1 < len(args); i++ {
+		if args[i] == "--patch" {
+			patch, _ = filepath.Abs(args[i+1])
+		}
+	}
+	bin, err := buildTestBinary(cfg, scratch, patch, false)
 	if err != nil {
 		fmt.Fprintf(os.Stderr, "HARNESS-ERROR property=%s build failed\n%v\n", cfg.ID, err)
 		return 2
